@@ -33,7 +33,9 @@ def rules(model: Model, tier: str) -> List[RuleResult]:
     _self_recursive(model, Rr)
     _apply_capture(model, X)
     _global_growth(model, G)
-    return [R8, C, Rr, X, G]
+    E = RuleResult(PROP, "C19-E", "a caught exception is not bound to a name that outlives its handler", min_instances=1)
+    _exception_binding(model, E)
+    return [R8, C, Rr, X, G, E]
 
 
 def _closure_values(v: ast.AST) -> List[ast.AST]:
@@ -149,8 +151,12 @@ def _apply_capture(model: Model, X: RuleResult):
 def _global_growth(model: Model, G: RuleResult):
     n = 0
     for m in model.modules.values():
-        containers = {nm for nm, v in m.assigns.items() if isinstance(v, (ast.Dict, ast.List, ast.Set)) or
-                      (isinstance(v, ast.Call) and ast.unparse(v.func) in ("dict", "list", "set", "OrderedDict", "collections.OrderedDict", "defaultdict", "collections.defaultdict"))}
+        def _container_ctor(v) -> bool:
+            if not isinstance(v, ast.Call):
+                return False
+            last = ast.unparse(v.func).split(".")[-1]
+            return last in ("dict", "list", "set", "deque") or last.endswith(("Dict", "dict", "Dictionary", "Set", "Cache", "cache"))
+        containers = {nm for nm, v in m.assigns.items() if isinstance(v, (ast.Dict, ast.List, ast.Set)) or _container_ctor(v)}
         for f in m.functions.values():
             local = set(f.all_params())
             for s in own_nodes(f.node):
@@ -173,3 +179,35 @@ def _global_growth(model: Model, G: RuleResult):
                     G.bad(f, enclosing_stmt(s), "function writes into the module-level container `%s`: whatever is stored there (tensors, "
                           "closures) lives for the whole process and grows with every call" % hit)
     G.ok("package", "module-level containers are only read inside functions (%d modules scanned)" % len(model.modules))
+
+
+def _exception_binding(model: Model, E: RuleResult):
+    """`except X as e:` - Python unbinds `e` at the end of the handler precisely because exception -> traceback ->
+    frame -> local `e` is a reference cycle. Copying `e` to another local / attribute / container re-creates the
+    cycle and keeps every local of the frame (tensors included) alive until the cyclic GC runs."""
+    n = 0
+    for f in model.all_functions():
+        for h in own_nodes(f.node):
+            if not isinstance(h, ast.ExceptHandler) or h.name is None:
+                continue
+            n += 1
+            bad = None
+            for b in h.body:
+                for s in ast.walk(b):
+                    if isinstance(s, (ast.Assign, ast.AnnAssign)) and s.value is not None:
+                        v = s.value
+                        holds = (isinstance(v, ast.Name) and v.id == h.name) or \
+                                (isinstance(v, (ast.Tuple, ast.List, ast.Dict)) and any(isinstance(x, ast.Name) and x.id == h.name for x in ast.walk(v)))
+                        if holds:
+                            bad = s
+                    if isinstance(s, ast.Call) and isinstance(s.func, ast.Attribute) and s.func.attr in ("append", "add", "setdefault", "insert") \
+                            and any(isinstance(a, ast.Name) and a.id == h.name for a in s.args):
+                        bad = enclosing_stmt(s)
+            what = "%s: `except %s as %s`" % (f.qualname, ast.unparse(h.type) if h.type else "", h.name)
+            if bad is not None:
+                E.bad(f, bad, "the caught exception `%s` is bound to another name / container: exception -> traceback -> frame -> that name is a "
+                      "reference cycle that keeps every local of %s (its tensors included) alive until the cyclic GC runs" % (h.name, f.qualname), what=what)
+            else:
+                E.ok(f.fq, what + " does not outlive the handler")
+    if n == 0:
+        E.ok("package", "no handler binds its exception")
